@@ -45,7 +45,7 @@ type c13Scenario struct {
 func c13Scenarios() []c13Scenario {
 	var out []c13Scenario
 	for _, w := range []string{"namedpipe", "syslog", "auditlog"} {
-		for _, s := range []string{"waiting-for-writer", "idle-pipe", "mid-record"} {
+		for _, s := range []string{"waiting-for-writer", "idle-pipe", "mid-record", "cancelled-before-start"} {
 			out = append(out, c13Scenario{w, s, 16})
 		}
 	}
@@ -54,7 +54,7 @@ func c13Scenarios() []c13Scenario {
 		out = append(out, c13Scenario{"auditlog", "downstream-full-consumer-stopped", c})
 		out = append(out, c13Scenario{"auditlog", "downstream-empty-consumer-running", c})
 	}
-	out = append(out, c13Scenario{"read", "idle", 0}, c13Scenario{"read", "busy", 0}, c13Scenario{"read", "flushing-expired-events", 0})
+	out = append(out, c13Scenario{"read", "idle", 0}, c13Scenario{"read", "busy", 0}, c13Scenario{"read", "flushing-expired-events", 0}, c13Scenario{"read", "cancelled-before-start", 0})
 	return out
 }
 
@@ -78,16 +78,16 @@ var c13Tier string
 // c13Dwell: two repetitions in fifty (quick; ten in a thousand, thorough) stay
 // in the confirmed blocking state for 2.5 s (12 s) before cancel().
 func c13Dwell(i int, out *childOut) {
-	// 25 and 100 are coprime to the number of scenarios: every scenario gets
+	// 23 and 101 are coprime to the number of scenarios (25): every scenario gets
 	// its share, and the long cases are spread over the child processes
 	if c13Tier == "thorough" {
-		if i%100 == 7 {
+		if i%101 == 7 {
 			time.Sleep(12 * time.Second)
 			out.add("cancellations_after_a_long_stay_in_the_state", 1)
 		}
 		return
 	}
-	if i%25 == 7 {
+	if i%23 == 7 {
 		time.Sleep(2500 * time.Millisecond)
 		out.add("cancellations_after_a_long_stay_in_the_state", 1)
 	}
@@ -127,6 +127,9 @@ func c13Ingest(seed int64, i int, sc c13Scenario, dir string, out *childOut) {
 	defer os.Remove(fifo)
 	ctx, cancel := context.WithCancel(context.Background())
 	defer cancel()
+	if sc.State == "cancelled-before-start" {
+		cancel() // the worker is started with a context that is cancelled already
+	}
 	var delivered, afterReturn int64
 	var returned int32
 	note := func() {
@@ -182,6 +185,8 @@ func c13Ingest(seed int64, i int, sc c13Scenario, dir string, out *childOut) {
 	}
 	reached := false
 	switch sc.State {
+	case "cancelled-before-start":
+		reached = true // nothing to wait for: there is no writer and there will be none
 	case "waiting-for-writer":
 		// Ingest's opener goroutine is in open(2), Ingest itself parked in select.
 		// (An implementation whose open does not wait for a writer is parked in
@@ -318,6 +323,9 @@ func c13Read(seed int64, i int, sc c13Scenario, out *childOut) {
 	a := auditd.Auditd{Audits: audits, Logins: logins, EventW: rec.Writer(), Health: health.NewHealth()}
 	ctx, cancel := context.WithCancel(context.Background())
 	defer cancel()
+	if sc.State == "cancelled-before-start" {
+		cancel()
+	}
 	done := make(chan error, 1)
 	go func() { done <- a.Read(ctx) }()
 	sig := "C13:read:" + sc.State
@@ -379,6 +387,8 @@ func c13Read(seed int64, i int, sc c13Scenario, out *childOut) {
 			close(stopFeed)
 			return
 		}
+	} else if sc.State == "cancelled-before-start" {
+		close(feedDone)
 	} else {
 		close(feedDone)
 		if !waitParked("auditd.(*Auditd).Read", "select", c13Watch) {
@@ -446,6 +456,9 @@ func c13ReadExpiring(i int, sc c13Scenario, out *childOut) {
 	a := auditd.Auditd{Audits: audits, Logins: logins, EventW: rec.Writer(), Health: health.NewHealth()}
 	ctx, cancel := context.WithCancel(context.Background())
 	defer cancel()
+	if sc.State == "cancelled-before-start" {
+		cancel()
+	}
 	done := make(chan error, 1)
 	go func() { done <- a.Read(ctx) }()
 	sig := "C13:read:" + sc.State
